@@ -471,6 +471,20 @@ def str_method(ip: Interp, obj: SV, name: str, args, kw) -> SV:
         if len(args) != 1:
             raise Unsupported('split() form')
         return str_split(ip, s, ip.as_str(args[0]))
+    if name == 'rsplit':
+        if len(args) != 2 or not (args[1].k == 'int' and z3.is_int_value(z3.simplify(args[1].e))
+                                  and z3.simplify(args[1].e).as_long() == 1):
+            raise Unsupported('rsplit() form (only rsplit(sep, 1))')
+        sep = ip.as_str(args[0])
+        if ip.decide(z3.Contains(s, sep)):
+            idx = z3.LastIndexOf(s, sep)
+            a = z3.SubString(s, 0, idx)
+            b = z3.SubString(s, idx + z3.Length(sep), z3.Length(s) - idx - z3.Length(sep))
+            st.fact(idx >= 0)
+            st.fact(s == z3.Concat(a, sep, b))
+            st.fact(z3.Not(z3.Contains(b, sep)))
+            return SV('pylist', py=PyList([('item', mk_str(a)), ('item', mk_str(b))], T=('list', ('str',))))
+        return SV('pylist', py=PyList([('item', mk_str(s))], T=('list', ('str',))))
     if name == 'format':
         return str_format(ip, s, args, kw)
     raise Unsupported(f'str.{name}')
